@@ -17,10 +17,10 @@ from . import c12_model as M
 PID = 'C12'
 
 TIERS = {
-    'quick': {'files': 24, 'multiconf': 6, 'f3': 80, 'f5': 40, 'f6': 'all', 'f9': 40, 'f10': 80, 'f11': 'all', 'opt_every': 3,
+    'quick': {'big_thin': 4, 'files': 24, 'multiconf': 6, 'f3': 80, 'f5': 40, 'f6': 'all', 'f9': 40, 'f10': 80, 'f11': 'all', 'opt_every': 3,
               'chunk': 160, 'max_min': 3},
     'thorough': {'files': 64, 'multiconf': 14, 'f3': 'all', 'f5': 300, 'f6': 'all', 'f9': 400, 'f10': 'all', 'f11': 'all', 'opt_every': 1,
-                 'chunk': 400, 'max_min': 5, 'full': 260},
+                 'chunk': 400, 'max_min': 5, 'full': 260, 'full_partial': 'all'},
 }
 OPTION_SETS = ([], ['--protonate-all'], ['-k'])
 DELIVERIES = ('path', 'stream', 'cli')
@@ -138,6 +138,25 @@ def build_jobs(base, wl, tier, cfg, log):
         # the unfaulted file itself (base sanity: the model must agree with it)
         for d in DELIVERIES:
             cases.append([fid, ['F0'], d, []])
+    # large fragments (groups that count as buried): single lost records and
+    # partial residues only, to bound the cost
+    big_tier = {'f3': 0, 'f5': 0, 'f6': 0, 'f9': 0, 'f10': 0, 'f11': 0}
+    for inp in wl['inputs']:
+        if inp['id'] in ('ftj_sys3.base', 'hpx_core.base'):
+            recs = M.split_records(inp['text'])
+            n = len(M.atom_indices(recs))
+            fid = inp['id']
+            files[fid] = {'text': inp['text'], 'stem': inp['stem'], 'census': True}
+            fl = [f for f in M.enumerate_faults(n, big_tier, rng, M.residue_bounds(recs))
+                  if f[0] in ('F2', 'F12', 'F13')]
+            thin = tier.get('big_thin', 1)
+            if thin > 1:    # quick: every tail loss, a quarter of the head and single-record losses
+                fl = [f for k, f in enumerate(fl) if f[0] == 'F12' or k % thin == 0]
+            exhaustive[fid] = {'records': n, 'F12': True, 'F2': thin == 1, 'F13': thin == 1,
+                               'others': False}
+            for k, fault in enumerate(fl):
+                cases.append([fid, list(fault), DELIVERIES[k % 3], OPTION_SETS[k % 3 if k % 7 == 0 else 0]])
+            full_ids.append(fid)
     # thorough: the complete regression structures, losses at residue boundaries
     if tier.get('full'):
         for inp in workload.full_structures(driver.REPO):
@@ -157,6 +176,10 @@ def build_jobs(base, wl, tier, cfg, log):
             fl += [('F7', a, c) for a, c in rng.sample(pairs, min(len(pairs), tier['full'] // 2))]
             fl += [('F2', rng.randrange(n)) for _ in range(tier['full'])]
             fl += [('F3', rng.randrange(n - 20), rng.randrange(2, 17)) for _ in range(tier['full'] // 2)]
+            bb = M.residue_bounds(recs)
+            part = [('F12', k, e) for a, e in zip(bb, bb[1:]) for k in range(a + 1, e)]
+            part += [('F13', a, k) for a, e in zip(bb, bb[1:]) for k in range(a + 1, e)]
+            fl += part if tier.get('full_partial') == 'all' else rng.sample(part, min(len(part), 4 * tier['full']))
             exhaustive[fid] = {'records': n, 'sampled': True}
             for k, fault in enumerate(fl):
                 cases.append([fid, list(fault), DELIVERIES[k % 3], OPTION_SETS[k % 3 if k % 5 == 0 else 0]])
@@ -480,7 +503,9 @@ def main(argv=None):
                          '(every pair of residue boundaries); F8 periodic loss of every p-th block of b records '
                          '(b in 1,2,4,8; p in 2,3,5; every phase); F9 independent loss of each record with rate '
                          '0.02-0.9 (seeded sample); F10 two single records lost at most 12 records apart (all in '
-                         'thorough, sample in quick); F11 two whole residues lost (every pair). Thorough adds the complete regression structures '
+                         'thorough, sample in quick); F11 two whole residues lost (every pair); F12/F13 the tail / '
+                         'the head of one residue lost (every split point of every residue), also on two large '
+                         'fragments (~700-800 records) in which groups count as buried. Thorough adds the complete regression structures '
                          'with sampled F1/F2/F3/F4/F6/F7. Cases are distinct by '
                          'sha256(faulted text, options, delivery); a case is trivial if every lost record is one '
                          'the reader ignores anyway (ignorable residue, hydrogen without -k) or nothing is lost.'),
